@@ -96,6 +96,16 @@ func (x *Exec) goTo(st *State, from, to *ssa.BasicBlock) {
 		// loop entry
 		if top && li.lc != nil {
 			env := x.envAt(st)
+			for _, a := range li.lc.Enter {
+				old, ok := st.ghost[a.Var]
+				if !ok {
+					panic(specErr{fmt.Sprintf("%s: enter set of undeclared ghost %s", x.name, a.Var)})
+				}
+				v := x.evalTerm(env, a.C)
+				n := x.D.Fresh("gh_"+a.Var, old.Sort)
+				st.Assume(Eq(n, v))
+				st.ghost[a.Var] = n
+			}
 			for i, c := range li.lc.Invariants {
 				o := x.oblig(x.invName(li, i, c)+"/init", "invariant-init", c.Tags, to.Instrs[0].Pos())
 				o.Src = c.Text
@@ -181,6 +191,7 @@ func (x *Exec) havocLoop(st *State, li *loopInfo) {
 	st.top = nt
 	st.fresh = map[string]bool{}
 	for _, a := range li.modLoc {
+		delete(st.fr.lptrs, a)
 		t := derefType(a.Type())
 		st.fr.locals[a] = x.freshVal(st, t, "loc_"+a.Comment)
 	}
@@ -228,6 +239,16 @@ func (x *Exec) step(st *State, in ssa.Instruction) {
 	case *ssa.Store:
 		p := x.val(st, i.Addr)
 		elem := derefType(i.Addr.Type())
+		if pa, ok := p.(*Addr); ok && pa.Kind == aLocal && len(pa.Path) == 0 {
+			if va, ok := x.val(st, i.Val).(*Addr); ok {
+				if fr.lptrs == nil {
+					fr.lptrs = map[*ssa.Alloc]*Addr{}
+				}
+				fr.lptrs[pa.Alloc] = va
+				break
+			}
+			delete(fr.lptrs, pa.Alloc)
+		}
 		x.nilCheck(st, p, i, "store")
 		x.fieldPolicy(st, p, true, i)
 		v := x.term(st, x.val(st, i.Val), i.Val.Type())
@@ -331,6 +352,11 @@ func (x *Exec) step(st *State, in ssa.Instruction) {
 		r := x.newRef(st, "chan")
 		x.setHeap(st, kChCap, Store(x.heap(st, kChCap), r, sz))
 		x.setHeap(st, kChClosed, Store(x.heap(st, kChClosed), r, False))
+		if gs, ok := x.CS.GhostHeaps["ChCredit"]; ok {
+			// make(chan T, n) creates n send credits (DESIGN.md 2.4-2)
+			x.regHeap("G!ChCredit", gs)
+			x.setHeap(st, "G!ChCredit", Store(x.heap(st, "G!ChCredit"), r, sz))
+		}
 		fr.vals[i] = r
 		x.fireHooks(st, in, "makechan", true, nil, []SymVal{r})
 	case *ssa.MakeClosure:
@@ -416,6 +442,9 @@ func (x *Exec) step(st *State, in ssa.Instruction) {
 
 func (x *Exec) srcOf(in ssa.Instruction) string {
 	s := x.P.ExprTextAt(in.Pos())
+	if i := strings.Index(s, " {"); i > 0 {
+		s = s[:i]
+	}
 	if len(s) > 60 {
 		s = s[:60]
 	}
@@ -578,7 +607,23 @@ func (x *Exec) unop(st *State, i *ssa.UnOp) {
 	fr := st.fr
 	switch i.Op {
 	case token.MUL:
+		if g, ok := i.X.(*ssa.Global); ok {
+			if f := x.P.VarFuncs[x.P.pkgPrefix(g.Pkg.Pkg.Path())+"var "+g.Name()]; f != nil {
+				// package-level function variable, never reassigned (listed assumption, scanned)
+				x.note("package-level function variable %s assumed never reassigned", g.Name())
+				fv := &FuncVal{Fn: f, Handle: x.D.FuncHandle(f.String())}
+				st.closures[fv.Handle.S] = fv
+				fr.vals[i] = fv
+				return
+			}
+		}
 		p := x.val(st, i.X)
+		if pa, ok := p.(*Addr); ok && pa.Kind == aLocal && len(pa.Path) == 0 {
+			if va, ok := fr.lptrs[pa.Alloc]; ok {
+				fr.vals[i] = va
+				return
+			}
+		}
 		x.nilCheck(st, p, i, "load")
 		x.fieldPolicy(st, p, false, i)
 		v := x.Load(st, p, i.Type())
@@ -900,6 +945,7 @@ func (x *Exec) mapUpdate(st *State, i *ssa.MapUpdate) {
 		}
 	}
 	x.mapFieldPolicy(st, i.Map, true, i)
+	x.fireHooks(st, i, "mapupdate", false, []SymVal{m, k, v}, nil)
 	H, V, C := x.heap(st, hk), x.heap(st, vk), x.heap(st, ck)
 	had := Select(Select(H, m), k)
 	x.setHeap(st, ck, Store(C, m, Add(Select(C, m), Ite(had, Zero, IntLit(1)))))
